@@ -210,7 +210,10 @@ func c07Twin(t *rapid.T, label string, prev []*mocrelay.ReqFilter) []*mocrelay.R
 		} else {
 			m := map[string][]string{}
 			for k, v := range f.Tags {
-				m[k] = v[:len(v)-1] // one value fewer (possibly none: selects nothing)
+				if len(v) > 0 {
+					v = v[:len(v)-1] // one value fewer (possibly none: selects nothing)
+				}
+				m[k] = v
 			}
 			f.Tags = m
 		}
